@@ -466,6 +466,7 @@ def _build_arg_parser():
     """
     description = 'Web interface for Nbdime.'
     parser = ConfigBackedParser(description=description)
+    parser.default_entrypoint = 'server'
     add_generic_args(parser)
     add_web_args(parser)
     return parser
